@@ -71,15 +71,35 @@ def resolve (env : Env) (ref : Str) (st : RState) : Res (Str × Json) × RState 
       | (.raise e, st') => (.raise e, st')
       | (.miss q, st') => (.miss q, st')
 
+/-- how a `$ref` value is read (`urljoin` behind an `lru_cache`): a string is itself; a list or dict is
+    unhashable (TypeError); a truthy scalar makes `urljoin` raise; a FALSY scalar (`None`, `0`, `0.0`,
+    `false` — Drafts 3 and 4 do not constrain `$ref`) is the empty reference when the base is non-empty
+    (`if not url: return base`) and unresolvable when the base is empty (`if not base: return url`, then
+    a non-string reaches `urldefrag` and the retrieval: RefResolutionError) -/
+inductive RefReading where
+  | ref (r : Str) | emptyOrUnresolvable | typeError
+
+def refReading : Json → RefReading
+  | .str r => .ref r
+  | .arr _ => .typeError
+  | .obj _ => .typeError
+  | j => if truthy j then .typeError else .emptyOrUnresolvable
+
+/-- the `$ref` keyword function for the reference string `r`: resolve (which raises before anything
+    is pushed), push the URL, descend into the target, pop in `finally`. -/
+def kwRefStr (env : Env) (rec : Rec) (r : Str) (inst : Json) : Gen := fun b st =>
+  match resolve env r st with
+  | (.ok (url, target), st1) => withScope env url (rec inst target) b st1
+  | (.raise e, st1) => ⟨[], .raised e, st1⟩
+  | (.miss q, st1) => ⟨[], .miss q, st1⟩
+
 /-- the `$ref` keyword function: resolve (which raises before anything is pushed), push the
     URL, descend into the target, pop in `finally`. -/
 def kwRef (env : Env) (rec : Rec) (ref : Json) (inst : Json) : Gen := fun b st =>
-  match ref with
-  | .str r =>
-    match resolve env r st with
-    | (.ok (url, target), st1) => withScope env url (rec inst target) b st1
-    | (.raise e, st1) => ⟨[], .raised e, st1⟩
-    | (.miss q, st1) => ⟨[], .miss q, st1⟩
-  | _ => ⟨[], .raised (.crash "TypeError"), st⟩
+  match refReading ref with
+  | .ref r => kwRefStr env rec r inst b st
+  | .emptyOrUnresolvable =>
+    if st.top.isEmpty then ⟨[], .raised .refResolution, st⟩ else kwRefStr env rec [] inst b st
+  | .typeError => ⟨[], .raised (.crash "TypeError"), st⟩
 
 end JS
